@@ -25,7 +25,7 @@ from .gitsim import Sim, REALGIT
 GEN_FILES = ["GenIngest"]
 DRIVERS = ["ingest"]
 THEOREMS = ["C20_status0", "C20_never_panics", "C20_status0_refuted", "C20_exit_table_zero", "C20_routing",
-            "C20_orphans_ignored", "C20_no_escape", "C20_lexical_escape", "C20_dotdot_to_root",
+            "C20_orphans_ignored", "C20_no_escape", "C20_failed_pass_records_nothing", "C20_lexical_escape", "C20_dotdot_to_root",
             "C20_decoder_total", "C20_decoder_ok_shape", "C20_decoder_rejects",
             "C20_complete_file_based", "C20_complete_primary", "C20_complete_external",
             "C20_nested_complete_refuted", "C20_scope_collapse_refuted",
@@ -55,7 +55,8 @@ TRUSTED_BASE = [
 ]
 ASSUMPTIONS = [
     "repositories are allowed by the configuration (default config)",
-    "repo_working_dir / cwd are not inside a .git directory; the directory of every listed file exists",
+    "repo_working_dir / cwd are not inside a .git directory",
+    "routing correspondence: a preset that takes over repo_working_dir receives an absolute one; listed paths have at most 64 components",
     "routing correspondence compares files that exist and were modified (git status reports only changes)",
 ]
 
@@ -804,7 +805,11 @@ def model_route_input(W, preset_sym, cwd, hook_sx, rwd, files, failing=()):
         for f in files or []:
             raw = absolutize(b, f)
             cand[tuple(raw)] = raw
-            cand[tuple(raw[:-1])] = raw[:-1]
+            if len(raw) <= 64:
+                for k in range(len(raw)):          # the upward walk over the path as written
+                    cand[tuple(raw[:k])] = raw[:k]
+            else:
+                cand[tuple(raw[:-1])] = raw[:-1]
     stats = [e for e in (stat_entry(raw) for raw in cand.values()) if e]
     fl = " ".join(f"({sx_path(comps(W.repos[n]['root']))} {W.repos[n]['kind']})" for n in sorted(failing))
     return (f"{lay} {sx_path(cwd_raw) if cwd else 'none'} ({' '.join(stats)}) ({fl}) {preset_sym} {hook_sx}")
@@ -864,12 +869,12 @@ def walks_out(cs):
 
 
 def k7_failing(W, P, base_dir, files):
-    """C20-K7: repositories whose `git status` pathspec starts by leaving the work tree (`../ra/x`, `<root>/../ra/x`):
-    git refuses the whole command and every file of that pass is lost"""
+    """C20-K7: repositories whose `git status` command line is refused because of ONE listed path that passes the
+    work-dir filter: a spelling that leaves the work-tree root through `..` before re-entering (`../ra/x`,
+    `<root>/../ra/x`), the empty string (or the work dir itself given absolutely), or a NUL byte.  Every file of that
+    pass is lost."""
     out = set()
     for s in files or []:
-        if "\0" in s:
-            continue
         for n, rp in W.repos.items():
             if rp["kind"] == "bare":
                 continue
@@ -879,15 +884,24 @@ def k7_failing(W, P, base_dir, files):
             try:
                 res = os.path.realpath(a) if os.path.exists(a) else os.path.normpath(a)
             except (OSError, ValueError):
-                continue
+                res = os.path.normpath(a)
             if not (res == wd or res.startswith(wd + os.sep)):
                 continue
-            if n == P and not s.startswith("/"):
-                if walks_out(pieces(s)):
+            if n != P:
+                # only paths routed to n reach its pass: external to P, and n is the repository the upward walk finds
+                pw = W.repos[P]["workdir"] if P else None
+                if pw and (res == pw or res.startswith(pw + os.sep)):
+                    continue
+                if W.innermost(res) != n:
+                    continue
+            if "\0" in s:
+                out.add(n)
+            elif n == P and not s.startswith("/"):
+                if s == "" or walks_out(pieces(s)):
                     out.add(n)
             else:
                 ca, cw = pieces(a), pieces(wd)
-                if ca[:len(cw)] == cw and walks_out(ca[len(cw):]):
+                if ca[:len(cw)] == cw and (len(ca) == len(cw) or walks_out(ca[len(cw):])):
                     out.add(n)
     return out
 
@@ -1048,17 +1062,33 @@ def layout_case(args):
             by_real = {os.path.realpath(b) for b in bystanders}
             over = [(rp, q) for rp, q in impl if q in by_real]
             if over and files:
-                def resolved(s):
-                    b = W.repos[P]["workdir"] if P else (base_real or cwd)
-                    a = s if os.path.isabs(s) else os.path.join(b, s)
-                    return os.path.realpath(a) if os.path.exists(a) else os.path.normpath(a)
-                outside_all = P is not None and all(
-                    not (resolved(s) == W.repos[P]["workdir"] or resolved(s).startswith(W.repos[P]["workdir"] + os.sep))
-                    for s in files)
-                link_escape = any(os.path.islink(s if os.path.isabs(s) else os.path.join(cwd, s)) for s in files if "\0" not in s)
-                if outside_all or link_escape:
+                jb = W.repos[P]["workdir"] if P else (base_real or cwd)
+
+                def interp(s):
+                    return s if os.path.isabs(s) else os.path.join(jb, s)
+
+                def ok_path(s):
+                    if "\0" in s:
+                        return False
+                    a = interp(s)
+                    if not os.path.exists(a):
+                        return False
+                    real = os.path.realpath(a)
+                    if P is not None:
+                        wd = W.repos[P]["workdir"]
+                        return real == wd or real.startswith(wd + os.sep)
+                    return real == os.path.normpath(a)
+                # C20-K2 (decidable on the input): some listed path does not name an existing location inside the work
+                # tree of the repository of repo_working_dir (file-based mode: does not exist, or goes through a symlink)
+                k2 = not all(ok_path(s) for s in files)
+                # a relative repo_working_dir taken over by the preset: listed paths are re-interpreted against the work dir
+                k2 = k2 or (P is None and rwd is not None and not os.path.isabs(rwd) and preset != "agent-v1")
+                # a listed directory lists everything below it
+                dirs = [os.path.realpath(interp(s)) for s in files if "\0" not in s and os.path.isdir(interp(s))]
+                over = [(rp, q) for rp, q in over if not any(q == d or q.startswith(d.rstrip(os.sep) + os.sep) for d in dirs)]
+                if over and k2:
                     res["known"].append("C20-K2")
-                else:
+                elif over:
                     bad.append(f"unlisted (human) files recorded by this checkpoint: {over[:3]}")
         if bad:
             res["viol"].append(dict(desc, problems=bad[:4]))
@@ -1066,6 +1096,7 @@ def layout_case(args):
         hook_sx = "(json " + jsx(v) + ")"
         res["model_in"] = model_route_input(W, psym, None if deleted_cwd else cwd, hook_sx, rwd, files, failing)
         res["files_given"] = bool(files)
+        res["tie_skip"] = (rwd is not None and not os.path.isabs(rwd) and preset != "agent-v1") or any(len(pieces(f)) > 64 for f in files or [])
         res["impl"] = sorted(impl)
         res["edited"] = edited
         res["rc"] = rc
@@ -1080,3 +1111,296 @@ def layout_case(args):
         return res
     finally:
         shutil.rmtree(W.root, ignore_errors=True)
+
+
+# ------------------------------------------------------------------ hook-argument variants: status / panic vs the model
+def hook_variants(args):
+    base, seed = args
+    W = World(base, "hookv", features=())
+    ra = W.repos["ra"]["root"]
+    out = []
+    try:
+        good = jtext(O(type="human", repo_working_dir=ra, will_edit_filepaths=["a0.txt"]))
+        runs = [("none", ["agent-v1"], None), ("missing", ["agent-v1", "--hook-input"], None),
+                ("empty", ["agent-v1", "--hook-input", "  "], None), ("stdin-empty", ["agent-v1", "--hook-input", "stdin"], b" \n"),
+                ("stdin-err", ["agent-v1", "--hook-input", "stdin"], b"\xff\xfe{}"),
+                ("argv-bad", ["agent-v1", "--hook-input", b"\xff\xfe{}"], None),
+                ("notjson", ["agent-v1", "--hook-input", "{not json"], None),
+                ("(json " + jsx(O(type="human", repo_working_dir=ra, will_edit_filepaths=["a0.txt"])) + ")",
+                 ["agent-v1", "--hook-input", good], None)]
+        for preset_sym, first in (("v1", "agent-v1"), ("claude", "claude"), ("codex", "codex"), ("aitab", "ai_tab"),
+                                  ("mock", "mock_ai"), ("nopreset", "no-such-preset")):
+            for hook, argv, stdin in runs:
+                if hook.startswith("(json") and preset_sym != "v1":
+                    continue
+                argv2 = [first] + argv[1:]
+                p = subprocess.run([C.GITAI, "checkpoint"] + argv2, cwd=ra, env=W.sim.env(), input=stdin,
+                                   stdout=subprocess.PIPE, stderr=subprocess.PIPE)
+                err = p.stderr.decode("utf-8", "replace")
+                out.append({"preset": preset_sym, "hook": hook, "rc": p.returncode, "panic": any(m in err for m in PANIC_MARKERS),
+                            "model_in": model_route_input(W, preset_sym, ra, hook, None, None)})
+        return out
+    finally:
+        shutil.rmtree(W.root, ignore_errors=True)
+
+
+# ------------------------------------------------------------------ D. witnesses of the known classes
+def _ai_payload(rwd, files, cid="w"):
+    return jtext(O(type="ai_agent", repo_working_dir=rwd, edited_filepaths=files, transcript=O(messages=[O(type="user", text="go")]),
+                   agent_name="toolx", model="m1", conversation_id=cid))
+
+
+def witness(args):
+    base, which = args
+    W = World(base, "wit" + which, features=("inner",)).stores()
+    ra, rb = W.repos["ra"]["root"], W.repos["rb"]["root"]
+    try:
+        if which == "K1":
+            _w(ra + "/inner/i0.txt", "ai\n", "a")
+            rc, err = W.run("agent-v1", _ai_payload(ra, ["inner/i0.txt"]), cwd=ra)
+            logs, _ = W.read_logs()
+            return rc == 0 and not any(ents for ents in logs.values())
+        if which == "K2":
+            _w(ra + "/a1.txt", "a person typed this\n", "a")
+            _w(rb + "/b0.txt", "ai\n", "a")
+            rc, err = W.run("agent-v1", _ai_payload(ra, [rb + "/b0.txt"]), cwd=ra)
+            logs, _ = W.read_logs()
+            return any(k == "AiAgent" and "a1.txt" in fs for k, fs in logs["ra"])
+        if which == "K3":
+            d = W.root + "/gone"
+            os.makedirs(d)
+            p = subprocess.run(["sh", "-c", "cd %s && rmdir %s && exec %s checkpoint agent-v1 --hook-input \"$P\"" % (d, d, C.GITAI)],
+                               env=dict(W.sim.env(), P=_ai_payload(ra, ["a0.txt"])), stdout=subprocess.PIPE, stderr=subprocess.PIPE)
+            return p.returncode != 0 and b"panicked at" in p.stderr
+        if which == "K4":
+            p = subprocess.run([C.GITAI, "checkpoint", "agent-v1", "--hook-input", b"\xff\xfe{}"], cwd=ra, env=W.sim.env(),
+                               stdout=subprocess.PIPE, stderr=subprocess.PIPE)
+            return p.returncode != 0
+        if which == "K5":
+            sess = W.tdir + "/copilot_session_ovf.json"
+            _w(sess, json.dumps({"requests": [{"timestamp": 9223372036854775807, "message": {"text": "hi"},
+                                               "response": [{"value": "answer"}], "result": {"timings": {"totalElapsed": 5}}}]}))
+            _w(ra + "/a0.txt", "ai\n", "a")
+            rc, err = W.run("github-copilot", jtext(O(hook_event_name="after_edit", workspace_folder=ra, chat_session_path=sess,
+                                                      edited_filepaths=["a0.txt"])), cwd=ra)
+            return rc != 0 and "panicked at" in err
+        if which == "K6":
+            os.symlink("../rb/b1.txt", ra + "/lnk")
+            _w(rb + "/b1.txt", "content that lives in the sibling repository\n", "a")
+            rc, err = W.run("agent-v1", _ai_payload(ra, None), cwd=ra)
+            logs, _ = W.read_logs()
+            return any("lnk" in fs for k, fs in logs["ra"])
+        if which == "K7":
+            _w(ra + "/a0.txt", "ai\n", "a")
+            _w(ra + "/sub/a2.txt", "ai\n", "a")
+            rc, err = W.run("agent-v1", _ai_payload(ra, ["a0.txt", "../ra/sub/a2.txt"]), cwd=ra)
+            logs, _ = W.read_logs()
+            return rc == 0 and not logs["ra"]
+        return False
+    finally:
+        shutil.rmtree(W.root, ignore_errors=True)
+
+
+KNOWN = {
+    "K1": "C20-K1 a listed file of a repository is recorded nowhere: it lies inside the work dir of the repository discovered from "
+          "repo_working_dir but belongs to a nested repository / submodule / work tree below it (or that repository is bare), or it "
+          "belongs to a submodule, or (workspace mode) its repository is outside the workspace boundary",
+    "K2": "C20-K2 some listed path does not name an existing location inside the work tree of the repository of repo_working_dir: a "
+          "pass whose pathspec filter becomes empty scans the whole work tree and records files nobody listed (a person's edits as AI)",
+    "K3": "C20-K3 the process working directory no longer exists: std::env::current_dir().unwrap() panics, exit status 101",
+    "K4": "C20-K4 the hook payload is passed on the command line and is not valid UTF-8: clap refuses the arguments, exit status 2",
+    "K5": "C20-K5 github-copilot chat session file with timestamp + totalElapsed overflowing i64: arithmetic overflow panic "
+          "(builds with overflow checks), exit status 101",
+    "K6": "C20-K6 an untracked / modified symbolic link inside the work tree pointing to a file of another repository is read "
+          "through by a whole-tree checkpoint: the other repository's content is attributed under the link's name",
+    "K7": "C20-K7 one listed path that passes the work-dir filter but that git refuses — a spelling leaving the work-tree root "
+          "through `..` before re-entering (`../ra/x`, `<root>/../ra/x`), the empty string, or a NUL byte: `git status` fails and "
+          "every file of that pass is lost",
+}
+
+
+def load_inventory():
+    sys.path.insert(0, os.path.join(C.VERIF, "tools"))
+    import gen_from_source as L
+    spec = importlib.util.spec_from_file_location("gen_GenIngest", os.path.join(C.VERIF, "tools", "gen", "GenIngest.py"))
+    g = importlib.util.module_from_spec(spec)
+    spec.loader.exec_module(g)
+    rows, reach, nfn = g.inventory(L)
+    return rows, len(reach), nfn
+
+
+# ------------------------------------------------------------------ the check
+def run(ctx):
+    quick = ctx.tier == "quick"
+    base = ctx.scratch
+    obligations, violations, known = [], [], set()
+    PM = {"agent-v1": "v1", "claude": "claude", "codex": "codex", "ai_tab": "aitab"}
+
+    # ---- panic-site inventory (reported; its sites are what the generators aim at)
+    try:
+        rows, nreach, nfn = load_inventory()
+        inv_tot = {}
+        for _, _, k, c in rows:
+            inv_tot[k] = inv_tot.get(k, 0) + c
+        inventory = {"scanned_functions": nfn, "reachable_from_handle_checkpoint": nreach, "totals": inv_tot,
+                     "sites": [{"file": a, "function": b, "kind": c, "count": d} for a, b, c, d in rows]}
+        obligations.append(("monitor:panic-site inventory regenerated", True, json.dumps(inv_tot, sort_keys=True)))
+    except Exception as e:  # noqa
+        inventory = {"error": str(e)}
+        obligations.append(("monitor:panic-site inventory regenerated", False, str(e)))
+
+    # ---- A. decoder correspondence
+    nb, per = (16, 70) if quick else (64, 700)
+    res = C.parallel_map(decoder_batch, [(base, ctx.seed, i, per) for i in range(nb)])
+    dec = []
+    for b in res:
+        if isinstance(b, dict) and "error" in b:
+            violations.append(("engine error in decoder batch " + b["error"][-300:], b))
+        else:
+            dec.extend(b)
+    dec_mis, dec_hist, dec_distinct = [], {}, set()
+    mod = C.run_cases(C.driver_path("ingest"), "c20-decode", [(str(i), PM[x["preset"]] + " " + x["sx"]) for i, x in enumerate(dec)]) \
+        if ctx.model_ok else {}
+    n_acc = 0
+    for i, x in enumerate(dec):
+        key = x["preset"] + ":" + x["label"]
+        dec_hist[key] = dec_hist.get(key, 0) + 1
+        dec_distinct.add((x["preset"], x["text"]))
+        if x["bad"]:
+            violations.append((f"{x['preset']} payload {short(x['text'], 200)}: {x['bad']}",
+                               {"kind": "decoder", "preset": x["preset"], "payload": short(x["text"], 3000), "problems": x["bad"],
+                                "stderr": x["err"]}))
+        if ctx.model_ok:
+            m = mod.get(str(i), "?")
+            n_acc += (not m.startswith("err:"))
+            if m.startswith("err:") != x["rejected"] or "SHAPE" in m or m == "?":
+                dec_mis.append(f"{x['preset']} {short(x['text'], 200)}: model {m} impl {'rejected' if x['rejected'] else 'accepted'}")
+    obligations.append(("tie:correspondence decoders (agent-v1, claude, codex, ai_tab) Model/Ingest.v vs binary",
+                        ctx.model_ok and not dec_mis, "; ".join(dec_mis[:3]) if dec_mis else ("" if ctx.model_ok else "model did not build")))
+
+    # ---- hook argument variants
+    hv = hook_variants((base, ctx.seed))
+    hv_mis = []
+    if ctx.model_ok:
+        hm = C.run_cases(C.driver_path("ingest"), "c20-route", [(str(i), x["model_in"]) for i, x in enumerate(hv)], shards=1)
+        for i, x in enumerate(hv):
+            out = hm.get(str(i), "?")
+            if not out.startswith("(status"):
+                hv_mis.append(f"{x['preset']}/{x['hook'][:20]}: model output {out[:80]}")
+                continue
+            xs = {y[0]: y[1:] for y in C.sx_parse_many(out)}
+            if xs["status"][0] != x["rc"] or bool(xs["panic"][0]) != x["panic"]:
+                hv_mis.append(f"{x['preset']}/{x['hook'][:20]}: model status {xs['status'][0]} impl {x['rc']}")
+    for x in hv:
+        if (x["rc"] != 0 or x["panic"]):
+            if x["hook"] == "argv-bad":
+                known.add(KNOWN["K4"])
+            else:
+                violations.append((f"hook variant {x['hook'][:30]} with preset {x['preset']}: exit {x['rc']}", {"kind": "hook-variant", **x}))
+    obligations.append(("tie:correspondence exit status for every --hook-input form x preset", ctx.model_ok and not hv_mis, "; ".join(hv_mis[:3])))
+
+    # ---- B. payload matrix
+    reps = 1 if quick else 12
+    items = [(base, ctx.seed, k * 100 + i, p, 50) for k in range(reps) for i, p in enumerate(PRESETS)]
+    mres = C.parallel_map(matrix_batch, items)
+    mx_runs, mx_acc, mx_rec, mx_labels, samples = 0, 0, 0, {}, []
+    per_preset = {}
+    for it, x in zip(items, mres):
+        if "error" in x:
+            violations.append(("engine error in payload matrix " + x["error"][-300:], x))
+            continue
+        st = x["stats"]
+        mx_runs += st["runs"]
+        mx_acc += st["accepted"]
+        mx_rec += st["recorded"]
+        pp = per_preset.setdefault(it[3], {"runs": 0, "accepted": 0, "recorded_something": 0})
+        pp["runs"] += st["runs"]
+        pp["accepted"] += st["accepted"]
+        pp["recorded_something"] += st["recorded"]
+        for k, v in st["labels"].items():
+            mx_labels[k] = mx_labels.get(k, 0) + v
+        for v in x["violations"]:
+            violations.append((f"{v.get('preset', '')} {v.get('label', v['kind'])}: {v['problems'][:2] if 'problems' in v else v}", v))
+        if len(samples) < 4:
+            samples.extend(x["samples"][:1])
+
+    # ---- C. layout cases
+    nl = 64 if quick else 1500
+    lres = C.parallel_map(layout_case, [(base, ctx.seed, i) for i in range(nl)])
+    ok = [x for x in lres if "error" not in x]
+    for x in lres:
+        if "error" in x:
+            violations.append(("engine error in layout case " + x["error"][-300:], x))
+    lay_mis, lay_hist, hits = [], {}, {}
+    lmod = C.run_cases(C.driver_path("ingest"), "c20-route", [(str(x["idx"]), x["model_in"]) for x in ok]) if ctx.model_ok else {}
+    lay_distinct = set()
+    for x in ok:
+        key = f"{x['preset']}/{x['mode']}/cwd={x['cwd']}"
+        lay_hist[key] = lay_hist.get(key, 0) + 1
+        lay_distinct.add(x["desc"]["payload"] + x["desc"]["cwd"].split("/ws")[-1] + ",".join(x["features"]))
+        for k in x["known"]:
+            hits[k] = hits.get(k, 0) + 1
+            known.add(KNOWN[k.split("-")[1]])
+        for v in x["viol"]:
+            violations.append((f"layout case {x['idx']}: {v.get('problems', v)}"[:400], v))
+        if ctx.model_ok and not x["tie_skip"]:
+            out = lmod.get(str(x["idx"]), "?")
+            if not out.startswith("(status"):
+                lay_mis.append(f"case {x['idx']}: model output {out[:100]}")
+                continue
+            xs = {y[0]: y[1:] for y in C.sx_parse_many(out)}
+            st, pn, sa = xs["status"][0], xs["panic"][0], xs["scope-all"][0]
+            ed = set(x["edited"])
+            mrec = set()
+            for rec in xs.get("records", []):
+                (root, kind), q = rec
+                mrec.add(("/" + "/".join(C.uncps(c) for c in root), "/" + "/".join(C.uncps(c) for c in q)))
+            roots = {"ra": "/ws/ra", "inner": "/ws/ra/inner", "rb": "/ws/rb", "sm": "/ws/ra/sm", "wt": "/ws/wt",
+                     "bare": "/ws/bare.git", "bare_in": "/ws/ra/b2.git"}
+            impl = {(rp, q) for rp, q in x["impl"] if q in ed}
+            m2 = set()
+            for root, q in mrec:
+                if q in ed:
+                    nm = [n for n, sfx in roots.items() if root.endswith(sfx)]
+                    m2.add((nm[0] if nm else root, q))
+            okrec = (m2 == impl) if (x["files_given"] and not sa) else (m2 <= impl or not x["files_given"])
+            if not okrec or st != x["rc"] or bool(pn) != x["panic"]:
+                lay_mis.append(f"case {x['idx']} ({key}): model records {sorted(m2)} status {st} panic {pn}; "
+                               f"impl {sorted(impl)} status {x['rc']} panic {x['panic']}; payload {x['desc']['payload'][:300]}")
+    obligations.append(("tie:correspondence routing (records, status, panic) Model/Ingest.v vs binary on generated layouts",
+                        ctx.model_ok and not lay_mis, "; ".join(lay_mis[:2]) if lay_mis else ("" if ctx.model_ok else "model did not build")))
+
+    # ---- D. known-class witnesses
+    wres = C.parallel_map(witness, [(base, k) for k in sorted(KNOWN)])
+    for k, w in zip(sorted(KNOWN), wres):
+        if isinstance(w, dict):
+            violations.append((f"engine error in witness {k}: " + w["error"][-300:], w))
+        elif w:
+            known.add(KNOWN[k])
+
+    evaluations = len(dec) + len(hv) + mx_runs + len(ok) + len(KNOWN)
+    return {
+        "obligations": obligations,
+        "violations": violations,
+        "known_seen": sorted(known),
+        "searched": f"{len(dec)} decoder values, {len(hv)} hook-argument forms, {mx_runs} payloads over {len(PRESETS)} presets, "
+                    f"{len(ok)} layout cases; decoder mismatches {len(dec_mis)}, routing mismatches {len(lay_mis)}",
+        "coverage": {
+            "evaluations": evaluations,
+            "distinct_nontrivial": len(dec_distinct) + len(lay_distinct) + mx_acc,
+            "rule": "decoder: JSON values (valid shapes, one/two structural mutations at any field incl. nested transcript/messages, "
+                    "sequence forms, tag variants), distinct by (preset, text); matrix: per preset valid shapes, wrong type and missing "
+                    "at every top-level field, mutations, truncations, non-JSON, 10000-deep nesting, 1-5 MB strings, raw NUL / invalid "
+                    "UTF-8 on stdin, BOM, blank, duplicate keys, argv limit — counted non-trivial when the preset accepted the payload; "
+                    "layouts: features (nested, submodule, work tree, bare x2, symlinks) x cwd x repo_working_dir x 1-4 listed paths "
+                    "in several spellings + bystander edits, distinct by payload+cwd+features",
+            "samples": samples + [x["sample"] for x in ok[:3]],
+            "input_distribution": {"decoder": dec_hist, "matrix_labels": mx_labels, "matrix_per_preset": per_preset,
+                                   "layout": lay_hist},
+            "decoder_accepted_by_model": n_acc,
+            "presets_driven_offline": PRESETS + ["mock_ai", "(no preset)"],
+            "known_class_hits_in_random_runs": hits,
+            "correspondence_mismatches": len(dec_mis) + len(lay_mis) + len(hv_mis),
+            "panic_site_inventory": inventory,
+        },
+    }
